@@ -10,7 +10,7 @@ import (
 func init() {
 	register(&Property{
 		ID:          "C02",
-		Explanation: "Decides four structural necessary conditions of 'bundling preserves module-graph semantics', not the semantics: R4 every graph search that answers a provisional constant for nodes already in its visited set (the export-star dynamic-fallback search) receives a visited set created for that one traversal root; R1 every interop/runtime helper the linker, bundler, graph and printer refer to by name (__commonJS, __esm, __toESM, __toCommonJS, __export, __reExport, __copyProps, __require, __glob, __toBinary*, ...) is exported by the embedded runtime text in every feature configuration; R2 a module identity is parsed at most once per scan: the `go parseFile` spawn is dominated by the not-found edge of the visited-map lookup, and the visited entry and the pending counter are updated on every path from that edge to the spawn; R3 every config.Loader constant is dispatched by parseFile's loader switch (none falls through to 'do not know how to load'). R5 shared-ast-immutability: the C09/R2 frozen-AST analysis (no link-time store into AST memory that was not cloned for this link). R6 await-follows-callee-async: every EAwait the linker builds around a call of x.AST.WrapperRef is control dependent on x.Meta.IsAsyncOrHasAsyncDependency of the same x. R7 esm-wrapper-call-awaitable: every generated call of an ES-wrapped module's wrapper has an awaited variant for the same module in the same function. R8 require-of-tla-diagnosed-for-every-requirer: no condition controlling the require() diagnostic of reportInvalidTLA reads tlaCheck.parent of the file whose records are examined. NOT covered: link-time import/export matching, wrapper and ordering semantics, the JS bodies of the helpers.",
+		Explanation: "Decides four structural necessary conditions of 'bundling preserves module-graph semantics', not the semantics: R4 every graph search that answers a provisional constant for nodes already in its visited set (the export-star dynamic-fallback search) receives a visited set created for that one traversal root; R1 every interop/runtime helper the linker, bundler, graph and printer refer to by name (__commonJS, __esm, __toESM, __toCommonJS, __export, __reExport, __copyProps, __require, __glob, __toBinary*, ...) is exported by the embedded runtime text in every feature configuration; R2 a module identity is parsed at most once per scan: the `go parseFile` spawn is dominated by the not-found edge of the visited-map lookup, and the visited entry and the pending counter are updated on every path from that edge to the spawn; R3 every config.Loader constant is dispatched by parseFile's loader switch (none falls through to 'do not know how to load'). R5 shared-ast-immutability: the C09/R2 frozen-AST analysis (no link-time store into AST memory that was not cloned for this link). R6 await-follows-callee-async: every EAwait the linker builds around a call of x.AST.WrapperRef is control dependent on x.Meta.IsAsyncOrHasAsyncDependency of the same x. R7 esm-wrapper-call-awaitable: every generated call of an ES-wrapped module's wrapper has an awaited variant for the same module in the same function. R8 require-of-tla-diagnosed-for-every-requirer: no condition controlling the require() diagnostic of reportInvalidTLA reads tlaCheck.parent of the file whose records are examined. R9 init-before-reexport: no append of a wrapper call to insideWrapperPrefix is reachable, within one iteration of the statement loop, after an append of a __reExport call. NOT covered: link-time import/export matching, wrapper and ordering semantics, the JS bodies of the helpers.",
 		Run: func(p *Prog, tier string) []*RuleResult {
 			return []*RuleResult{
 				runtimeNamesRule(p, "C02/R1 runtime-names", map[string]bool{"linker": true, "bundler": true, "graph": true, "js_printer": true}, 10),
@@ -21,7 +21,7 @@ func init() {
 	})
 	register(&Property{
 		ID:          "C05",
-		Explanation: "Decides one structural necessary condition of 'syntax lowering preserves behaviour': every runtime helper the lowering passes of the parser call or import by name (__async, __asyncGenerator, __privateGet/Set/Add/Method/In, __publicField, __objRest, __spreadValues/Props, __pow, __template, __using, __callDispose, __decorate*, __forAwait, __yieldStar, __await, __superGet/Set, ...) is exported by the embedded runtime text in every feature branch. It decides the existence of the helper, nothing about what it does. R2 decides one ordering fact of object-rest lowering on the control-flow graph: within one iteration of the property loop of lowerObjectRestHelper's visitor, every path to the splitObjectPattern call passes the key capture (captureKeyForObjectRest) or the edge on which the pattern has no trailing rest, so `rest` excludes every property before it. R3 synthesised-this: sibling agreement of the super-property lowering helpers on the bookkeeping of the `this` they write (two known findings). R4 cannot-throw-table: couldPotentiallyThrow answers 'cannot throw' only for primitive literals and function/arrow expressions. R5 implied-features-unmasked: fixInvalidUnsupportedJSFeatureOverrides ORs the implied bits in as given. R6 hoist-first-evaluated: every call of findFirstTopLevelSuperCall receives the child its statement kind evaluates first and once (table of statement/child pairs). NOT covered: once-only evaluation, this/super binding, short-circuit order of the lowered code (a linear-use analysis was considered and declined, see DESIGN.md).",
+		Explanation: "Decides one structural necessary condition of 'syntax lowering preserves behaviour': every runtime helper the lowering passes of the parser call or import by name (__async, __asyncGenerator, __privateGet/Set/Add/Method/In, __publicField, __objRest, __spreadValues/Props, __pow, __template, __using, __callDispose, __decorate*, __forAwait, __yieldStar, __await, __superGet/Set, ...) is exported by the embedded runtime text in every feature branch. It decides the existence of the helper, nothing about what it does. R2 decides one ordering fact of object-rest lowering on the control-flow graph: within one iteration of the property loop of lowerObjectRestHelper's visitor, every path to the splitObjectPattern call passes the key capture (captureKeyForObjectRest) or the edge on which the pattern has no trailing rest, so `rest` excludes every property before it. R3 synthesised-this: sibling agreement of the super-property lowering helpers on the bookkeeping of the `this` they write (two known findings). R4 cannot-throw-table: couldPotentiallyThrow answers 'cannot throw' only for primitive literals and function/arrow expressions. R5 implied-features-unmasked: fixInvalidUnsupportedJSFeatureOverrides ORs the implied bits in as given. R6 hoist-first-evaluated: every call of findFirstTopLevelSuperCall receives the child its statement kind evaluates first and once (table of statement/child pairs). R7 marking-traversal-visits-every-child: in self-recursive bool-valued map-marking traversals of js_parser no recursive call is control dependent on a loop-carried boolean. R8 assign-target-rewrite-visits-every-property: the in-loop recursive calls of lowerSuperPropertyOrPrivateInAssign depend on no Property field but ValueOrNil. NOT covered: once-only evaluation, this/super binding, short-circuit order of the lowered code (a linear-use analysis was considered and declined, see DESIGN.md).",
 		Run: func(p *Prog, tier string) []*RuleResult {
 			return []*RuleResult{runtimeNamesRule(p, "C05/R1 runtime-names", map[string]bool{"js_parser": true}, 40), c05ObjectRestExclusion(p), c05SynthesisedThis(p), c05CannotThrow(p), c05ImpliedFeaturesUnmasked(p, "C05/R5 implied-features-unmasked"), c05HoistFirstEvaluated(p), markingTraversalComplete(p, "C05/R7 marking-traversal-visits-every-child"), c05AssignTargetVisitsAll(p)}
 		},
